@@ -861,10 +861,71 @@ def R4(ctx: Ctx) -> RuleResult:
                 outs = ev.run(gfi, {gfi.params()[0]: phi})
                 loops = [e for o in outs for e in o.effects if isinstance(e, Loop)]
                 gen_mode = True
+    if not loops and len(outs) == 1 and outs[0].kind == 'return':
+        # the work list is the call stack: a recursive collector appends the conjuncts to a list handed down
+        calls = [e for e in outs[0].effects if isinstance(e, Call) and isinstance(e.func, FuncRef)]
+        if len(calls) == 1 and calls[0].args and calls[0].args[0] == phi and outs[0].value in calls[0].args[1:] and isinstance(outs[0].value, TupleT) and not outs[0].value.items:
+            hfi = ev.callee(calls[0].func)
+            if hfi is not None and not calls[0].kwargs:
+                _r4_recursive(r, ev, hfi, calls[0].args.index(outs[0].value, 1))
+                return r
     if not loops:
         raise AnalysisError('R4', '_split_and_expr: no work-list loop found')
     _r4_loop(r, fi, loops[0], phi, gen_mode)
     return r
+
+
+def _r4_recursive(r: RuleResult, ev: Evaluator, hfi, out_index: int) -> None:
+    """the same four cases for a recursive collector h(expr, ..., out): true returns, false raises ValueError, a conjunction
+    (after the pre-split transformation) recurses into both operands with the same list, anything else is appended once"""
+    params = hfi.params()
+    expr_p, out_p = Sym(params[0], 'HplExpression'), Sym(params[out_index])
+    seen = {'true': False, 'false': False, 'and': False, 'emit': False}
+    for o in ev.run(hfi, {params[0]: expr_p, params[out_index]: out_p}):
+        gs = reduce_guards(o.guards)
+        t = next((pol for g, pol in gs if _lit_test(g) == 'true'), None)
+        if o.kind == 'raise':
+            if any(_lit_test(g) == 'false' and pol for g, pol in gs) and 'ValueError' in repr(o.value):
+                seen['false'] = True
+            else:
+                r.fail('_split_and_expr:raise', f'raises {str(o.value)[:40]} under [{guards_repr(gs)}]', hfi.where)
+            continue
+        if t is True:
+            if o.effects:
+                r.fail('_split_and_expr:true', 'a literal true conjunct has effects', hfi.where)
+            seen['true'] = True
+            continue
+        expr = next((x for g, _ in o.guards for x in walk(g) if _fname(x) == '_and_presplit_transform' and getattr(x, 'args', None) == (expr_p,)), None) or \
+            next((x for e in o.effects for x in walk(e) if _fname(x) == '_and_presplit_transform' and getattr(x, 'args', None) == (expr_p,)), None)
+        if expr is None:
+            r.fail('_split_and_expr:transform', 'the conjunct is tested without the pre-split transformation', hfi.where)
+            continue
+        sh = Shapes()
+        for g, pol in gs:
+            if _lit_test(g) is None:
+                sh.read(g, pol)
+        is_and = sh.kind.get(canon(expr)) == 'and'
+        not_and = 'and' in sh.notkind.get(canon(expr), set())
+        rec = [e for e in o.effects if isinstance(e, Call) and isinstance(e.func, FuncRef) and ev.callee(e.func) is hfi]
+        emits = [c for c in method_calls(list(o.effects), 'append') if call_recv(c) == out_p]
+        other = [e for e in o.effects if e not in rec and e not in emits and isinstance(e, Call)]
+        if other:
+            r.fail('_split_and_expr:effects', f'unrecognised effect {str(other[0])[:60]} in the collector', hfi.where)
+        if is_and:
+            pushed = {canon(c.args[0]) for c in rec if len(c.args) > out_index and c.args[out_index] == out_p}
+            if pushed == {Attr(canon(expr), 'operand1'), Attr(canon(expr), 'operand2')} and len(rec) == 2 and not emits:
+                seen['and'] = True
+            else:
+                r.fail('_split_and_expr:and', f'a conjunction recurses into {sorted(map(repr, pushed))} and emits {len(emits)}: both operands must be visited with the same list, nothing emitted', hfi.where)
+        elif not_and:
+            if len(emits) == 1 and emits[0].args[0] == expr and not rec:
+                seen['emit'] = True
+            else:
+                r.fail('_split_and_expr:emit', 'an indivisible conjunct is not emitted exactly once', hfi.where)
+        else:
+            r.fail('_split_and_expr:path', f'unrecognised path [{guards_repr(gs)}]', hfi.where)
+    for k, label in (('true', 'literal true skipped'), ('false', 'literal false -> ValueError'), ('and', 'conjunction: both operands visited'), ('emit', 'other: emitted once')):
+        (r.ok(label) if seen[k] else r.fail(f'_split_and_expr:{k}', f'missing case: {label}', hfi.where))
 
 
 def _r4_loop(r: RuleResult, fi, lp: Loop, phi: Term, gen_mode: bool) -> None:
